@@ -118,7 +118,7 @@ def generate(ctx):
     L = 4 if quick else 6
     fixed = [Obj([('', [10, 11, Obj([('~', 1), ('/', 2), ('0', 3)])]), ('0', 0), ('a', [0, 1, 2, 3, 4, 5, 6, 7, 8, 9, 10, 11, 12]), ('A', 1), ('-', 2), ('1', Obj([('1', 1)]))]),
              [0, [1, [2, 3]], Obj([('a', 1)]), 3, 4, 5, 6, 7, 8, 9, 10, 11, 12, 13, 14, 15, 16, 17, 18, 19, 20, 21, 22, 23, 24, 25, 26, 27, 28, 29]]
-    for d in fixed:
+    for d in (fixed if ctx.get('seed_index', 0) == 0 else []):
         tt = ' '.join(value_tokens(d))
         for n in range(0, L + 1):
             for t in itertools.product(alph, repeat=n):
